@@ -68,6 +68,10 @@ impl Report {
     }
     /// run `f` for one input, turning a panic of the code under test into a contract failure
     pub fn guarded<F: FnOnce(&mut Report)>(&mut self, input: &str, f: F) {
+        self.guarded_with(input, "panic", f)
+    }
+    /// like `guarded`, with the failure class to use if the code under test panics
+    pub fn guarded_with<F: FnOnce(&mut Report)>(&mut self, input: &str, panic_class: &str, f: F) {
         if !self.case(input) {
             return;
         }
@@ -84,7 +88,7 @@ impl Report {
             }
             Err(e) => {
                 let msg = e.downcast_ref::<String>().cloned().or_else(|| e.downcast_ref::<&str>().map(|s| s.to_string())).unwrap_or_default();
-                self.fail("panic", input, format!("the code under test panicked: {}", msg));
+                self.fail(panic_class, input, format!("the code under test panicked: {}", msg));
             }
         }
     }
@@ -202,6 +206,34 @@ pub fn mod_items<'a>(items: &'a [syn::Item], name: &str) -> Option<&'a Vec<syn::
         syn::Item::Mod(m) if m.ident == name => m.content.as_ref().map(|c| &c.1),
         _ => None,
     })
+}
+
+/// structural equality of token streams (spans and spacing ignored)
+pub fn ts_eq(a: &TokenStream, b: &TokenStream) -> bool {
+    let (x, y): (Vec<TokenTree>, Vec<TokenTree>) = (a.clone().into_iter().collect(), b.clone().into_iter().collect());
+    x.len() == y.len() && x.iter().zip(y.iter()).all(|(p, q)| tt_eq(p, q))
+}
+
+pub fn tt_eq(a: &TokenTree, b: &TokenTree) -> bool {
+    match (a, b) {
+        (TokenTree::Group(g), TokenTree::Group(h)) => g.delimiter() == h.delimiter() && ts_eq(&g.stream(), &h.stream()),
+        (TokenTree::Ident(i), TokenTree::Ident(j)) => i == j,
+        (TokenTree::Punct(p), TokenTree::Punct(q)) => p.as_char() == q.as_char(),
+        (TokenTree::Literal(l), TokenTree::Literal(m)) => l.to_string() == m.to_string(),
+        _ => false,
+    }
+}
+
+/// `want` is a structural prefix of `got`
+pub fn ts_prefix(want: &TokenStream, got: &TokenStream) -> Option<usize> {
+    let (x, y): (Vec<TokenTree>, Vec<TokenTree>) = (want.clone().into_iter().collect(), got.clone().into_iter().collect());
+    for i in 0..x.len() {
+        match y.get(i) {
+            Some(t) if tt_eq(&x[i], t) => {}
+            _ => return Some(i),
+        }
+    }
+    None
 }
 
 pub fn tt_string<T: quote::ToTokens>(x: &T) -> String {
